@@ -159,7 +159,67 @@ def run(tier, replay=None):
         ctx.broken.append("correspondence pitch search: %d differing, first at %r: model %r, implementation %r" % (ndiff, ops[i], got, exp_line))
         if not fails:
             common.write_replay(PROP, "divergence", "# model: %s\n# implementation: %s\n%s\n" % (got, impl[i], ops[i]))
+    # ---- histories: a pitch-bend message re-pitches every sounding note of its channel at once; what stands on the chip
+    # (block/F-number read back through the chip-wide 0xA4 latch) is key + bend*range for every keyed-on voice
+    bend_hist = 0
+    if not replay:
+        import synth_run, synth_gen
+        from . import c20
+        rng = ctx.rng
+        bank = c20.tone_bank().hex()
+        hs = []
+        for _ in range(6 if tier == "quick" else 60):
+            h = ["new 65536 1", "bank " + bank]
+            keys = rng.sample([48, 52, 55, 60, 64, 67, 72, 76], 4)
+            st = {"bend": 8192, "msb": 2, "lsb": 0}
+            exp = []
+            for k in keys:
+                h.append("on 0 %d 100" % k); exp.append(None)
+            for _ in range(12):
+                c = rng.random()
+                if c < 0.5:
+                    st["bend"] = rng.choice([0, 4096, 8192, 12288, 16383, rng.randrange(16384)])
+                    h.append("pb 0 %d" % st["bend"]); exp.append(dict(st))
+                elif c < 0.8:
+                    # the range changes without the wheel moving; the library re-pitches at the next pitch-bend message
+                    st["msb"] = rng.choice([1, 2, 7, 12]); st["lsb"] = 0
+                    h += ["cc 0 101 0", "cc 0 100 0", "cc 0 6 %d" % st["msb"]]; exp += [None, None, None]
+                    h.append("pb 0 %d" % st["bend"]); exp.append(dict(st))
+                else:
+                    h.append("gen 256"); exp.append(None)
+            hs.append((h, keys, exp))
+        sops = [o for h, _, _ in hs for o in h]
+        simpl, smodel = synth_run.run(sops)
+        pos2 = 0
+        sd = 0
+        for h, keys, exp in hs:
+            io = simpl[pos2:pos2 + len(h)]; mo = smodel[pos2:pos2 + len(h)]
+            pos2 += len(h)
+            for k, (o, r) in enumerate(zip(h, io)):
+                if mo[k] != r:
+                    sd += 1
+                e = exp[k - 2] if k >= 2 else None
+                if e is None or not r.startswith("ret="):
+                    continue
+                bend_hist += 1
+                sn = synth_gen.parse_snapshot(r)
+                got = sorted(int(x) for x in re.findall(r" c\d+\{k1 koff=-?\d+ f=(\d+) ", r))
+                want = []
+                for key in keys:
+                    p = key + (e["bend"] - 8192) * (e["msb"] * 128 + e["lsb"]) / 1048576.0
+                    want.append(440.0 * 2 ** ((p - 69) / 12) * 144 * 2 ** 21 / C["clock"][0])
+                want.sort()
+                vals = sorted((ft & 0x7FF) * 2 ** (ft >> 11) for ft in got)
+                if len(vals) != len(want) or any(abs(v - w) > 1.01 * 2 ** max(0, (len(bin(int(w))) - 2) - 11) + 1 for v, w in zip(vals, want)):
+                    fails.append(("after %r the keyed-on voices of channel 0 stand at %s, key + bend*range gives %s (bend %d, range %d)" % (
+                        o, vals, [round(w, 1) for w in want], e["bend"], e["msb"]), []))
+                    ctx.violate("monitor", "# %s\n%s\n" % (fails[-1][0], "\n".join(x if len(x) < 200 else x[:50] + "..." for x in h[:k + 1])))
+                    common.write_replay(PROP, "monitor-full", "\n".join(h[:k + 1]) + "\n")
+                    break
+        if sd:
+            ctx.broken.append("correspondence synth (bend histories): %d differing snapshots" % sd)
     ctx.cov.update({
+        "bend_history_checks": bend_hist,
         "evaluations": len(ops), "distinct_nontrivial": len(set(r.split("ftone=")[1] for r in impl if "ftone=" in r)),
         "rule": "note-ons through the public API (bank API instrument with note offset / drum key / DT-MUL bytes, RPN 0 bend range, pitch bend) on both chip families: "
                 "chromatic scale, lattice of keys x bends x ranges x offsets, full/strided bend sweeps, percussion, out-of-range offsets; distinct = distinct "
